@@ -15,6 +15,8 @@ What is proved here, about the models of C19/Model.lean (the code after the two 
   (`scan_newest`, `C19_checkScan`), a second scan of an unchanged directory loads and drops nothing (`scan_quiescent`);
   at loader level every scan re-establishes "loaded = newest files of the directory, with their current contents"
   (`scan_resyncs`), hence after any history of directory states the loaded set equals the last one (`scan_converges`);
+  also when scans overlap directory changes (stat phase and loads see different states), as soon as one scan runs over
+  an unchanging directory (`scan_converges_overlapping`);
 * copy-on-write shard set, for every interleaving of replace (key by key, one atomic publish), search begin / end and
   finalizers (`CReach`): a search only ever works on a list that was published after a complete replace, with one
   version per key (`snapshot_consistent`); no searcher that the map, the published list or a running search still
@@ -24,6 +26,7 @@ Data races and the run-time's finalizer / munmap behaviour are outside any model
 -/
 import ZoektModel.C19.Converge
 import ZoektModel.C19.VfpSpec
+import ZoektModel.C19.Overlap
 namespace ZoektModel.C19
 open ZoektModel
 
@@ -40,6 +43,11 @@ theorem versionFromPath_full_false : ¬ ∀ path, ∃ r, versionFromPath false p
     decide
   rw [this] at hr
   cases hr
+
+/-- exactly which paths made the unfixed code panic: those whose last `_` is directly followed by `.` -/
+theorem versionFromPath_old_panics_iff (path : Bytes) :
+    (∃ site, versionFromPath false path = .panic site) ↔
+      ∃ und, lastIndexOf 95 path = some und ∧ (path.drop (und + 1)).head? = some 46 := vfp_old_panics_iff path
 
 /-- the fix changes nothing where the old code returned -/
 theorem versionFromPath_fix_conservative (path : Bytes) (r : Bytes × Int)
@@ -104,6 +112,30 @@ theorem scan_converges (fv nv : Int) (h0 : supported fv nv 0 = true) (ds : List 
     let D := ([] :: ds).getLast (by simp)
     w.ts = newestSpec fv nv (Disk.ents D) ∧ ∀ k, w.loaded.get? k = (newestC fv nv D).get? k :=
   runScans_synced fv nv h0 ds ⟨[], []⟩ [] (synced_empty fv nv) (by simp [NodupFn]) hg
+
+/-- **convergence when scans overlap directory changes**: the stat phase of a scan sees state `A`, its loads read a
+    later state `B` (any creations, replacements, deletions in between). For every history of such scans in which mtimes
+    identify versions (`Stable`: a file stat'ed with the same shard and sidecar mtimes by two consecutive scans did not
+    change in between) and the files a scan decides to load still exist when it loads them (`LoadsSucceed`), followed by
+    one scan of an unchanging directory `D` — the scan after the directory stops changing — the loaded set is exactly the
+    newest files of `D` with their current contents and sidecars. -/
+theorem scan_converges_overlapping (fv nv : Int) (h0 : supported fv nv 0 = true) (hs : List (Disk × Disk)) (D : Disk)
+    (hg : GoodOverlap fv nv [] [] (hs ++ [(D, D)])) :
+    let w := runScans2 fv nv ⟨[], []⟩ (hs ++ [(D, D)])
+    w.ts = newestSpec fv nv (Disk.ents D) ∧ ∀ k, w.loaded.get? k = (newestC fv nv D).get? k :=
+  overlap_converges fv nv h0 hs D hg
+
+/-- non-vacuity: a scan stats version 10 of a shard, the shard is replaced (11) before it is loaded; the watcher then
+    has the old mtime with the new content; the next, undisturbed scan sees the new mtime and reloads -/
+example :
+    let a : Bytes := [102, 95, 118, 49, 54, 46, 122]
+    let A1 : Disk := [⟨⟨a, some 1, none⟩, 10⟩]
+    let B1 : Disk := [⟨⟨a, some 2, none⟩, 11⟩]
+    GoodOverlap 16 17 [] [] ([(A1, B1)] ++ [(B1, B1)]) ∧
+      (runScans2 16 17 ⟨[], []⟩ [(A1, B1)]) = ⟨[(a, (1, none))], [(a, 11)]⟩ ∧
+      (runScans2 16 17 ⟨[], []⟩ [(A1, B1), (B1, B1)]) = ⟨[(a, (2, none))], [(a, 11)]⟩ := by
+  refine ⟨?_, by decide, by decide⟩
+  simp [GoodOverlap, NodupFn, Stable, LoadsSucceed, stampOf]
 
 /-- the single "latest mtime" the watcher kept before the second fix cannot see a sidecar that is removed while the
     shard is the newer file: different (shard, sidecar) states, same timestamp -/
